@@ -141,6 +141,9 @@ type install struct {
 	// kind of party installed on the builder just before build b (0 = none)
 	builds   int
 	lateAdds []byte
+	// earlyLate[b]: the party of lateAdds[b] is installed on the builder while parser b-1 is built but has not run yet
+	// (between Build and ParseProgram): parser b-1 must run as it was built, parser b has the new party
+	earlyLate []bool
 }
 
 func drawInstall(ch *kernel.Chooser, forC16 bool) install {
@@ -197,9 +200,11 @@ func drawInstall(ch *kernel.Chooser, forC16 bool) install {
 	}
 	in.builds = 1 + ch.Weighted(5, 3, 2)
 	in.lateAdds = make([]byte, in.builds)
+	in.earlyLate = make([]bool, in.builds)
 	for b := 1; b < in.builds; b++ {
 		if ch.Bool(1, 2) {
 			in.lateAdds[b] = "TSE"[ch.Choose(3)]
+			in.earlyLate[b] = ch.Bool(1, 3)
 		}
 	}
 	return in
@@ -870,6 +875,7 @@ type outcome struct {
 	panic   string
 	ctxTop  parser.ContextType
 	inFunc  bool
+	prog    *ast.Program
 }
 
 func observe(pb *parser.Builder, text string, r *recorder) outcome {
@@ -880,6 +886,7 @@ func observe(pb *parser.Builder, text string, r *recorder) outcome {
 		return out
 	}
 	out.tree = xutil.Dump(o.Program)
+	out.prog = o.Program
 	out.errors = xutil.ErrorsString(o.Errors)
 	out.errNil = o.Err == nil
 	if o.Parser != nil {
@@ -1382,10 +1389,13 @@ func (e *Engine) Run(prop string, ch *kernel.Chooser, st *kernel.Stats) kernel.R
 	for n, k := range in.order {
 		inst.add(k, in.viaInstall[n])
 	}
+	addedEarly := make([]bool, in.builds+1)
 	for curBuild = 0; curBuild < in.builds; curBuild++ {
 		if curBuild > 0 {
 			if k := in.lateAdds[curBuild]; k != 0 {
-				inst.add(k, ch.Bool(1, 3))
+				if via := ch.Bool(1, 3); !addedEarly[curBuild] {
+					inst.add(k, via)
+				}
 				switch k {
 				case 'T':
 					in.kT++
@@ -1403,7 +1413,18 @@ func (e *Engine) Run(prop string, ch *kernel.Chooser, st *kernel.Stats) kernel.R
 		inst.bailed, inst.stmtDepth, inst.exprDepth, inst.inStmtReenter, inst.bracketDepth = false, 0, 0, false, 0
 		inst.bracketFunc = 0
 		lexCalls := hooks.Count(hooks.LexerNextToken)
+		xutil.AfterBuild = nil
+		if nb := curBuild + 1; nb < in.builds && in.lateAdds[nb] != 0 && in.earlyLate[nb] {
+			k, via := in.lateAdds[nb], ch.Bool(1, 3)
+			xutil.AfterBuild = func() {
+				xutil.AfterBuild = nil // once: not again for parsers built inside interceptors
+				inst.add(k, via)
+				addedEarly[nb] = true
+				st.Inc("probe.party_installed_between_Build_and_ParseProgram_of_an_earlier_parser")
+			}
+		}
 		out := observe(inst.pb, text, rec)
+		xutil.AfterBuild = nil
 		lexCalls = hooks.Count(hooks.LexerNextToken) - lexCalls
 		res.Steps += int64(len(rec.events))
 		anyRe := false
@@ -1587,6 +1608,42 @@ func (e *Engine) Run(prop string, ch *kernel.Chooser, st *kernel.Stats) kernel.R
 					})
 					st.Inc("probe.expression_step_coverage_checked")
 				}
+			}
+			// every entry of a statement list of the returned tree (valid or malformed input, any mode) was handed out
+			// by a statement step: the outermost party got that very node back from next()
+			for _, pair := range []struct {
+				rr *recorder
+				o  outcome
+				n  int
+			}{{ref, refOut, 1}, {rec, out, in.kS}} {
+				if pair.n == 0 || pair.o.prog == nil || pair.o.panic != "" || in.stmtChain || inst.bailed {
+					continue
+				}
+				got := map[ast.Statement]bool{}
+				for _, sr := range pair.rr.stmtRet {
+					if sr.node != nil {
+						got[sr.node] = true
+					}
+				}
+				xutil.WalkNodes(pair.o.prog, func(n any) {
+					var list []ast.Statement
+					switch b := n.(type) {
+					case *ast.Program:
+						list = b.Statements
+					case *ast.BlockStatement:
+						list = b.Statements
+					}
+					for _, sn := range list {
+						if !xutil.IsNilValue(sn) && !got[sn] {
+							what := fmt.Sprintf("%T", sn)
+							if lt, ok := leftmostStmt(sn); ok {
+								what += " starting at " + xutil.TokString(lt)
+							}
+							add("C04", "steps", "steps|statement-in-tree-without-step", fmt.Sprintf("the returned tree holds a %s in a statement list, but no statement interceptor invocation returned that node (mode %s)", what, m))
+						}
+					}
+				})
+				st.Inc("probe.statement_list_coverage_checked")
 			}
 			// every party saw the first token of the construct that was parsed
 			for _, rr := range []*recorder{ref, rec} {
